@@ -20,6 +20,8 @@ const (
 	// DeliverFlags.ReplyPath / .UDHIndicator read bits 3 / 4, which GSM 03.40 9.2.2.1 leaves unused; TP-RP / TP-UDHI
 	// (bits 7 / 6) are in the fields TPRP / TPUDHI appended by the D24 fix.  TestFlags pins the two old fields there.
 	c19DFl = "deliver/flags/ReplyPath-and-UDHIndicator-fields-hold-unused-bits-3-4"
+	// UserData of a septet-coded message of 8 or more septets: TP-UDL octets, the user data then zero octets
+	c19UDPad = "value/user-data/septet-coded-8-or-more-septets-zero-padded-to-tp-udl-octets"
 )
 
 type c19Segs struct {
@@ -95,6 +97,8 @@ type c19Ctx struct {
 	seen    map[string]bool
 	nSample int
 	nLong   int
+	nHist   int
+	nAfter  int
 }
 
 func (c *c19Ctx) fail(class, what, in, observed, required string) {
@@ -143,17 +147,22 @@ func (c *c19Ctx) addrCheck(field string, npi, ton byte, no string, a specAddr, i
 	}
 }
 
+// udCheck: the decoded UserData against the user-data octets of the TPDU, exactly.  Known finding c19UDPad: for a
+// septet-counted data coding scheme with 8 or more septets UserData holds TP-UDL octets, i.e. the user data followed by
+// UDL - ceil(7 UDL / 8) zero octets (the slice length is where the structure keeps TP-UDL).  A difference is attributed to
+// that class only if the input lies in it AND the value is exactly what the finding predicts; anything else is value/user-data.
 func (c *c19Ctx) udCheck(got []byte, u specUD, in string) {
 	want := specUDOctets(u)
+	if bytes.Equal(got, want) {
+		return
+	}
 	n := specUDL(u)
-	ok := len(got) == n && bytes.Equal(got[:len(want)], want) && len(bytes.TrimRight(got[len(want):], "\x00")) == 0
-	if len(got) < len(want) {
-		ok = false
+	if u.IsSeptets && n >= 8 && len(got) == n && bytes.Equal(got[:len(want)], want) && len(bytes.Trim(got[len(want):], "\x00")) == 0 {
+		c.fail(c19UDPad, "decoded UserData is the user data followed by zero octets up to TP-UDL", in,
+			hex.EncodeToString(got), hex.EncodeToString(want))
+		return
 	}
-	if !ok {
-		c.fail("value/user-data", "decoded user data is not the laid-out octets (zero-filled up to TP-UDL)", in,
-			hex.EncodeToString(got), fmt.Sprintf("%s + %d zero octets", hex.EncodeToString(want), n-len(want)))
-	}
+	c.fail("value/user-data", "decoded user data is not the user-data octets of the TPDU", in, hex.EncodeToString(got), hex.EncodeToString(want))
 }
 
 // roundtrip compares the re-encoded octets; a difference must be exactly what the known findings produce
@@ -180,6 +189,10 @@ func (c *c19Ctx) cases(in []byte, o smsObs, label, specTerm string) {
 	switch {
 	case o.Class == 0 && o.ValidType && o.EncClass == 0:
 		r.Case(desc, fmt.Sprintf("sms_dec_is %s \"%s\" %s && sms_enc_is %s %s", coqHex(in), o.Name, o.Term, coqHex(in), coqHex(o.Out)))
+		if c.nAfter++; c.nAfter%8 == 0 && o.TermAfter != "" {
+			// the structure AFTER Marshal, against the model of what Marshal writes into its argument
+			r.Case("after-marshal "+desc, fmt.Sprintf("sms_arg_after_is %s \"%s\" %s", coqHex(in), o.Name, o.TermAfter))
+		}
 	default:
 		r.Case(desc, fmt.Sprintf("sms_class %s =? %d", coqHex(in), o.Class))
 	}
@@ -192,6 +205,10 @@ func (c *c19Ctx) readers(in []byte, o smsObs, label string) {
 	key := hex.EncodeToString(in)
 	smsReaderIndependence(c.r, in, o, label, "smsrt "+key)
 	smsMarshalTwice(c.r, o, label, "smsrt "+key, true)
+	if o.Class == 0 && o.EncClass == 0 && o.TermAfter != "" && o.TermAfter != o.Term {
+		c.r.Fail("marshal-changes-its-argument/"+label, "sms.Marshal changed the structure sms.Unmarshal returned (the value read back afterwards differs)", "smsrt "+key,
+			o.TermAfter, "unchanged: "+o.Term)
+	}
 	c.nLong++
 	if c.nLong%8 == 3 {
 		// the decoder written over the bufio model, on the schedule the implementation was run with (C19_*_any_reader)
@@ -331,6 +348,34 @@ func (c *c19Ctx) submit(t specSubmit, label string) {
 		}
 	}
 	c.udCheck(p.UserData, t.UD, key)
+	if o.EncClass == 0 {
+		// a history on ONE packet value: Marshal three more times, take the validity period away and put it back - the
+		// value and the octets written must be those of the first Marshal every time it holds the decoded value again
+		c.nHist++
+		if c.nHist%3 == 0 {
+			orig := p.ValidityPeriod
+			step := func(what string, mustEqual bool) {
+				var b bytes.Buffer
+				var merr error
+				pn, msg := guard(func() { _, merr = sms.Marshal(&b, p) })
+				switch {
+				case pn:
+					c.fail("marshal-history/panic/"+label, "sms.Marshal panics in a history of calls on one decoded structure ("+what+")", key, "panic: "+msg, "returns normally")
+				case mustEqual && (merr != nil || !bytes.Equal(b.Bytes(), o.Out) || smsObsTerm(p) != o.Term):
+					c.fail("marshal-history/"+label, "in a history of sms.Marshal calls on one decoded structure ("+what+") the octets or the structure differ from the first call", key,
+						fmt.Sprintf("err=%v %x %s", merr, b.Bytes(), smsObsTerm(p)), fmt.Sprintf("%x %s", o.Out, o.Term))
+				}
+			}
+			step("third call", true)
+			step("fourth call", true)
+			p.ValidityPeriod = nil
+			step("validity period removed", false)
+			p.ValidityPeriod = sms.Duration{Duration: 10 * time.Minute}
+			step("relative validity period put in", false)
+			p.ValidityPeriod = orig
+			step("decoded validity period put back", true)
+		}
+	}
 	if o.EncClass != 0 {
 		c.fail("marshal/submit/"+label, "Marshal of the decoded SMS-SUBMIT does not return normally", key, o.EncErr+o.EncPanic, "octets")
 		return
@@ -483,6 +528,7 @@ func c19Enh(r *Rng, f int) specEnh {
 func corrC19(r *Run) {
 	r.Import("Model.TpduRun")
 	r.Import("Spec.Gsm0340")
+	r.Import("Proofs.TpduMarshalEffect")
 	r.Import("Model.TpduReaderRun")
 	r.Rule = "TPDUs laid out by the Go transliteration of Spec/Gsm0340.v over the quantifier's classes: digit counts 1..20 (odd/even, leading zeros) " +
 		"for OA/DA/SC, alphanumeric 1..11, all 64 first octets of each type, all 256 relative VPs, enhanced (4 formats) and absolute VPs, " +
